@@ -320,6 +320,9 @@ func MakePkt(kind string) *astits.Packet {
 	case "stalebig": // reused struct: HasPayload unset but a stale payload that would not fit is still attached
 		return &astits.Packet{Header: astits.PacketHeader{PID: 0x300, HasAdaptationField: true, ContinuityCounter: 2},
 			AdaptationField: &astits.PacketAdaptationField{HasPCR: true, PCR: cr(5, 5)}, Payload: make([]byte, 184)}
+	case "stalefit": // reused struct: HasPayload unset, a short stale payload still attached (everything fits 188 bytes)
+		return &astits.Packet{Header: astits.PacketHeader{PID: 0x300, HasAdaptationField: true, ContinuityCounter: 6},
+			AdaptationField: &astits.PacketAdaptationField{HasPCR: true, PCR: cr(6, 6)}, Payload: bytes.Repeat([]byte{0x19}, 20)}
 	case "afwrap": // adaptation field whose private data (254 bytes) makes the 8-bit length arithmetic wrap
 		pd := bytes.Repeat([]byte{0x77}, 254)
 		return &astits.Packet{Header: astits.PacketHeader{PID: 0x300, HasAdaptationField: true, HasPayload: true},
